@@ -283,7 +283,10 @@ using namespace foonathan::memory;
                 {
                     bool ok = e.arr ? p.try_deallocate_array(ptr, e.count) : p.try_deallocate_node(ptr);
                     if (!ok)
-                        viol("C08", key("C08", "refused-own"), "try_deallocate refused memory the pool handed out");
+                        {
+                            also_scope lost("C04", "C08"); // memory whose release is refused never comes back: capacity is lost
+                            viol("C08", key("C08", "refused-own"), "try_deallocate refused memory the pool handed out");
+                        }
                 }
                 else if (e.arr)
                     p.deallocate_array(ptr, e.count);
@@ -294,7 +297,10 @@ using namespace foonathan::memory;
             {
                 bool ok = e.arr ? ctr::try_deallocate_array(p, ptr, e.count, e.size, e.align) : ctr::try_deallocate_node(p, ptr, e.size, e.align);
                 if (!ok)
-                    viol("C08", key("C08", "refused-own"), "try_deallocate_%s refused memory the pool handed out", e.arr ? "array" : "node");
+                    {
+                        also_scope lost("C04", "C08"); // memory whose release is refused never comes back: capacity is lost
+                        viol("C08", key("C08", "refused-own"), "try_deallocate_%s refused memory the pool handed out", e.arr ? "array" : "node");
+                    }
                 // not an allocator_traits release: the C15 model does not count it
             }
             else
@@ -474,7 +480,10 @@ using namespace foonathan::memory;
                 // composable interface in both directions: the traits-level leak count is not involved
                 bool ok = member ? p.try_deallocate_node(q) : ctr::try_deallocate_node(p, q, ns, 1);
                 if (!ok)
-                    viol("C08", key("C08", "refused-own"), "try_deallocate_node refused a node the pool handed out");
+                    {
+                        also_scope lost("C04", "C08"); // memory whose release is refused never comes back: capacity is lost
+                        viol("C08", key("C08", "refused-own"), "try_deallocate_node refused a node the pool handed out");
+                    }
             }
             u.src->check();
             if (p.capacity_left() != want * ns)
@@ -611,7 +620,10 @@ using namespace foonathan::memory;
             bool used = r.chance(60);
             op("move-assign onto %s target", used ? "used" : "fresh");
             // (another block size than the assigned-from pool: the block source's parameters must move along)
-            auto t = fresh(ns0, r.chance(50) ? bs0 : P::min_block_size(ns0, r.range(1, 120)), placement::heap);
+            // (and, half of the time, another node size: everything that describes the nodes must come from the assigned-from pool)
+            std::size_t tns = r.chance(50) ? ns0 : (is_small ? r.range(1, 40) : r.range(1, 72));
+            auto t = fresh(tns, r.chance(50) && tns == ns0 ? bs0 : P::min_block_size(tns, r.range(1, 120)), placement::heap);
+            auto src_node_size = u.obj->node_size();
             bool target_unbalanced = false;
             if (used)
             {
@@ -660,6 +672,9 @@ using namespace foonathan::memory;
                 leaks0 = hl().leaks.size(); // a report for the target's own outstanding memory at this point is not judged
             if (hl().leaks.size() != leaks0)
                 viol("C15", key("C15", "move-assign-reported"), "move assignment onto a balanced pool called the leak handler");
+            if (t->obj->node_size() != src_node_size)
+                viol("C12", key("C12", "move-assign-node-size"), "after move assignment node_size() is %zu, the assigned-from pool had %zu", t->obj->node_size(),
+                     src_node_size);
             if (!t->src->balanced())
                 viol("C12", key("C12", "move-assign-target-blocks-kept"),
                      "after move assignment the target's own blocks were not returned to its block source");
@@ -766,7 +781,11 @@ using namespace foonathan::memory;
             else if (x < 974 && units.size() < 3)
             {
                 op("second pool");
-                units.push_back(fresh(ns0, bs0, placement::heap));
+            {
+                // (a second pool may have another node size: swap then exchanges that as well)
+                std::size_t ns2 = r.chance(50) ? ns0 : (is_small ? r.range(1, 40) : r.range(1, 72));
+                units.push_back(fresh(ns2, ns2 == ns0 ? bs0 : P::min_block_size(ns2, r.range(2, 60)), placement::heap));
+            }
             }
             else if (x < 982)
                 do_drain(u);
